@@ -37,7 +37,7 @@ Definition toyO3 : oracles :=
   mkO toy_hash toy_hmac toy_extract toy_expand
       (fun _ p => p) (fun _ _ => 1) (fun _ a b => Some [zsum a + zsum b])
       toy_sign (fun cert alg data sg => beqb sg (toy_sign cert alg data))
-      (fun _ => true) (fun _ => 2) (fun _ _ => 0)
+      (fun _ => true) (fun _ => 2) (fun _ _ => 0) (fun n => beqb n [49])
       toy_parse_ch
       (fun m => typed 2 m (POk (dec_sh (zdrop 4 m)))) (fun m => typed 8 m (POk (dec_ee (zdrop 4 m))))
       (fun m => typed 13 m (POk (mkCR [] None))) (fun m => typed 11 m (POk toy_ct))
